@@ -21,17 +21,22 @@ Definition ctag (buf : list Z) (rd : Z) : option (Z * Z * Z) :=
   | Some (v, n) => if (v / 8 >? 2147483647) || (v / 8 <? 1) then None else Some (v / 8, v mod 8, n)
   end.
 
-(* BinaryProtocol.Skip: wire types 3,4,6,7 fall through the switch with a nil error *)
-Definition askip (buf : list Z) (rd wt : Z) : option Z :=
-  if wt =? 0 then match cvar buf rd with Some (_, n) => Some (rd + n) | None => None end
-  else if wt =? 5 then (if rd + 4 <=? plen buf then Some (rd + 4) else None)
-  else if wt =? 1 then (if rd + 8 <=? plen buf then Some (rd + 8) else None)
+(* BinaryProtocol.Skip: wire types 3,4,6,7 fall through the switch with a nil error.
+   SkipBytesType computes all := int(v) + n unchecked and next(all) panics ("invalid size") when all <= 0 *)
+Inductive skres := SkOk (rd : Z) | SkErr | SkPanic.
+Definition askip (buf : list Z) (rd wt : Z) : skres :=
+  if wt =? 0 then match cvar buf rd with Some (_, n) => SkOk (rd + n) | None => SkErr end
+  else if wt =? 5 then (if rd + 4 <=? plen buf then SkOk (rd + 4) else SkErr)
+  else if wt =? 1 then (if rd + 8 <=? plen buf then SkOk (rd + 8) else SkErr)
   else if wt =? 2 then
     match cvar buf rd with
-    | Some (v, n) => if rd + v + n <=? plen buf then Some (rd + v + n) else None
-    | None => None
+    | Some (v, n) =>
+      let all := to_s 64 v + n in
+      if all <=? 0 then SkPanic
+      else if rd + all <=? plen buf then SkOk (rd + all) else SkErr
+    | None => SkErr
     end
-  else Some rd.
+  else SkOk rd.
 
 Definition aread_length (buf : list Z) (rd : Z) : option (Z * Z) :=
   match cvar buf rd with Some (v, n) => Some (v, rd + n) | None => None end.
@@ -57,7 +62,7 @@ Definition aread_int (buf : list Z) (rd kk : Z) : option (Z * Z) :=
 
 (* outcome of a search function: found (returned offset, cursor) / errNotFound / an error that is a
    generic.Node / any other error (the caller's err.(Node) then panics) *)
-Inductive sres := SFound (start rd : Z) | SNotFound | SErrNode | SErrRaw.
+Inductive sres := SFound (start rd : Z) | SNotFound | SErrNode | SErrRaw | SPanic.
 
 Fixpoint search_field_id (fuel : nat) (buf : list Z) (rd id lim : Z) : sres :=
   match fuel with
@@ -69,8 +74,9 @@ Fixpoint search_field_id (fuel : nat) (buf : list Z) (rd id lim : Z) : sres :=
       | Some (num, wt, n) =>
         if num =? id then SFound rd rd
         else match askip buf (rd + n) wt with
-             | None => SErrNode
-             | Some rd' => search_field_id f buf rd' id lim
+             | SkErr => SErrNode
+             | SkPanic => SPanic
+             | SkOk rd' => search_field_id f buf rd' id lim
              end
       end
     else SNotFound
@@ -82,8 +88,9 @@ Fixpoint search_index_packed (fuel : nat) (buf : list Z) (rd lim idx ewt cnt : Z
   | S f =>
     if (rd <? lim) && (cnt <? idx) then
       match askip buf rd ewt with
-      | None => SErrNode
-      | Some rd' => search_index_packed f buf rd' lim idx ewt (cnt + 1)
+      | SkErr => SErrNode
+      | SkPanic => SPanic
+      | SkOk rd' => search_index_packed f buf rd' lim idx ewt (cnt + 1)
       end
     else if cnt <? idx then SNotFound else SFound rd rd
   end.
@@ -95,8 +102,9 @@ Fixpoint search_index_unpacked (fuel : nat) (buf : list Z) (rd idx ewt fnum cnt 
   | S f =>
     if (rd <? plen buf) && (cnt <? idx) then
       match askip buf rd ewt with
-      | None => SErrNode
-      | Some rd1 =>
+      | SkErr => SErrNode
+      | SkPanic => SPanic
+      | SkOk rd1 =>
         let cnt1 := cnt + 1 in
         if rd1 <? plen buf then
           match ctag buf rd1 with
@@ -139,8 +147,9 @@ Fixpoint search_key (fuel : nat) (buf : list Z) (rdkey : Z -> option (bool * Z))
             | None => SErrRaw
             | Some (_, vwt, n2) =>
               match askip buf (rd2 + n2) vwt with
-              | None => SErrNode
-              | Some rd3 =>
+              | SkErr => SErrNode
+              | SkPanic => SPanic
+              | SkOk rd3 =>
                 if rd3 >=? plen buf then SNotFound
                 else match ctag buf rd3 with
                      | None => SErrRaw
@@ -175,8 +184,8 @@ Fixpoint skip_all_unpacked (fuel : nat) (buf : list Z) (rd fnum : Z) : option Z 
       | Some (num, ewt, n) =>
         if negb (num =? fnum) then Some rd
         else match askip buf (rd + n) ewt with
-             | None => None
-             | Some rd' => skip_all_unpacked f buf rd' fnum
+             | SkOk rd' => skip_all_unpacked f buf rd' fnum
+             | _ => None
              end
       end
     else Some rd
@@ -221,8 +230,9 @@ Definition gbp_final (buf : list Z) (lbl : flabel) (t : ftype) (num : Z) (tt sta
     | None => GErrA
     | Some (start', rd1) =>
       match askip buf rd1 (wt_of_kind (kind_of_type t)) with
-      | None => GErrA
-      | Some rd2 => if rd2 <? start' then GUnmodelled else GFoundA tt (slice buf start' rd2)
+      | SkErr => GErrA
+      | SkPanic => GPanicA
+      | SkOk rd2 => if rd2 <? start' then GUnmodelled else GFoundA tt (slice buf start' rd2)
       end
     end.
 
@@ -244,6 +254,7 @@ Fixpoint gbp_loop (S : schema) (buf : list Z) (p : list pstep) (rd : Z) (isroot 
       | SNotFound => if last then GNotFoundA else GErrA
       | SErrNode => GErrA
       | SErrRaw => GPanicA
+      | SPanic => GPanicA
       end in
     match s with
     | PField _ | PName _ =>
